@@ -681,7 +681,7 @@ class C05(WorkerCheck):
     thorough_cases = 50000
     thorough_time = 420.0
     assumptions = [
-        "promptness slack is 1.0 virtual second (code polls every 0.3 s)",
+        "promptness slack is 2.0 virtual seconds (code polls every 0.3 s)",
         "wait_tasks_timeout may start counting as late as max(stop request, last message start)",
     ]
 
